@@ -182,10 +182,13 @@ impl E1 {
             s.push_str(&decls);
         }
         for e in &case.extern_enums {
+            // the user's own enum type: a transparent string newtype that refuses one sentinel string,
+            // so that a generated enum shadowing it (which would take the sentinel as `Other`) shows
             let _ = writeln!(
                 s,
-                "#[derive(Debug, Clone, PartialEq, serde::Serialize, serde::Deserialize)]\n#[allow(non_camel_case_types)] pub struct {}(pub String);",
-                e
+                "#[derive(Debug, Clone, PartialEq, serde::Serialize)]\n#[allow(non_camel_case_types)] pub struct {e}(pub String);\nimpl<'de> serde::Deserialize<'de> for {e} {{ fn deserialize<D: serde::Deserializer<'de>>(d: D) -> Result<Self, D::Error> {{ let s = <String as serde::Deserialize>::deserialize(d)?; if s == \"{sent}\" {{ return Err(<D::Error as serde::de::Error>::custom(\"extern enum stand-in refuses the sentinel\")); }} Ok({e}(s)) }} }}",
+                e = e,
+                sent = crate::world::exec::EXTERN_ENUM_SENTINEL
             );
         }
         match case.delivery {
